@@ -43,7 +43,7 @@ static void run_case(CaseCtx& c)
     cfg.dirbc   = (idx / 63) % 2;
     random_geom_params(rng, cfg.ps, true); // default geometry parameters of the shipped scripts
     cfg.ps.alpha_jump = documented_alpha_jump(cfg.ps.prof, cfg.ps.Rmax);
-    cfg.R0 = cfg.dirbc ? rng.pick({1e-5, 1e-3, 1e-2}) : rng.pick({1e-5, 1e-5, 1e-8}); // across-origin is a discretisation for R0 -> 0 only
+    cfg.R0 = cfg.dirbc ? rng.pick({1e-5, 1e-3, 1e-2, 0.5}) : rng.pick({1e-5, 1e-5, 1e-8}); // 0.5: a thick annulus (Dirichlet on both circles) // across-origin is a discretisation for R0 -> 0 only
     cfg.strategy = rng.range(0, 1);
     if (cfg.strategy == 1) {
         cfg.cache_prof = rng.coin();
